@@ -7,6 +7,8 @@ from .report import Report
 
 PKGS = ["onefile", "twofiles", "noconcat"]
 PROFILES = ["content-larger", "directory-larger"]
+# the system calls through which bytes reach the output files (std::io::copy between files uses copy_file_range / sendfile)
+WSET = "write,pwrite64,writev,copy_file_range,sendfile"
 
 
 def run_child(binary, casefile, d, limit=None, ignore_xfsz=False, wrapper=None, kill_after=None, transient=False):
@@ -58,7 +60,9 @@ def run(tier, seed):
                  "child's SIGXFSZ handler lifts the limit)} x destination {empty, holding a previous complete "
                  "container}: RLIMIT_FSIZE = N for N over 0..max output file size (thorough: every N; quick: every N of one configuration "
                  "sampled every 7th / 41st byte offset plus boundary offsets), plus SIGKILL on entry to the K-th rename syscall via strace injection (every K) and SIGKILL after "
-                 "seeded delays. Oracle: afterwards the destination is absent (only when nothing was there before), byte-identical to the previous complete file, or a complete "
+                 "seeded delays, plus faults addressed by write call (strace injection on write/pwrite64/writev/copy_file_range/sendfile, counted per thread): the "
+                 "K-th call fails once with EIO, fails from then on, or the process is killed on entering it, for every K (quick: every K for two configurations, "
+                 "every 4th elsewhere). Oracle: afterwards the destination is absent (only when nothing was there before), byte-identical to the previous complete file, or a complete "
                  "container (Container::new + check() true + every referenced pack file present and decoded by the independent decoder to "
                  "exactly the model); the un-injected strace log must show the entry point renamed last. Non-trivial = the child did not "
                  "complete. Distinct = (packaging, profile, variant, pre-existing, N|K|delay).",
@@ -103,16 +107,23 @@ def run(tier, seed):
                 st = os.path.join(work, f"strace-{tag}.log")
                 d = os.path.join(work, f"strace-{tag}")
                 os.makedirs(d)
-                run_child(binary, casefile, d, wrapper=["strace", "-f", "-o", st, "-e", "trace=rename,renameat,renameat2,link,linkat"])
+                run_child(binary, casefile, d, wrapper=["strace", "-f", "-o", st, "-e", "trace=rename,renameat,renameat2,link,linkat," + WSET])
                 renames = []
+                writes_per_thread = {}
                 try:
                     for line in open(st):
                         if "rename" in line and "= 0" in line:
                             parts = line.split('"')
                             if len(parts) >= 4:
                                 renames.append(os.path.basename(parts[3]))
+                        else:
+                            f = line.split(None, 2)
+                            if len(f) >= 2 and f[1].split("(")[0] in WSET.split(","):
+                                writes_per_thread[f[0]] = writes_per_thread.get(f[0], 0) + 1
                 except Exception:
                     pass
+                nwr = max(writes_per_thread.values()) if writes_per_thread else 0
+                rep.obs_set("write_calls_of_the_busiest_thread", f"{tag}:{nwr}")
                 rep.obs_set("rename_order", f"{tag}:{renames}")
                 if renames:
                     rep.evaluations += 1
@@ -136,6 +147,14 @@ def run(tier, seed):
                             ns += [rng.randrange(0, maxsize + 1) for _ in range(6)] + [0, 1, 63, 64, 65, 127, 128, maxsize - 1, maxsize]
                         for n in sorted(set(ns)):
                             jobs.append(dict(tag=tag, pkg=pkg, prof=prof, casefile=casefile, olddir=olddir if pre else None, variant=variant, mode="fsize", n=n))
+                # faults addressed by write CALL rather than by byte offset (strace injection, counted per thread): the K-th
+                # write-family call fails once with EIO, fails from then on, or the process is killed on entering it. Unlike a file
+                # size limit this reaches the writes that follow complete files (a final copy, the last file of several).
+                for pre in (False, True):
+                    dense = full or (pkg == "noconcat" and prof == "content-larger") or (pkg == "onefile" and prof == "content-larger" and pre)
+                    for k in range(1, nwr + 2, 1 if dense else 4):
+                        for variant in ("eio-once", "eio-from", "kill"):
+                            jobs.append(dict(tag=tag, pkg=pkg, prof=prof, casefile=casefile, olddir=olddir if pre else None, variant=variant, mode="wcall", n=k))
                 for pre in (False, True):
                     for k in range(1, nren + 2):
                         jobs.append(dict(tag=tag, pkg=pkg, prof=prof, casefile=casefile, olddir=olddir if pre else None, variant="sigkill", mode="rename", n=k))
@@ -155,6 +174,9 @@ def run(tier, seed):
                         shutil.copy(os.path.join(job["olddir"], n), os.path.join(d, n))
                 if job["mode"] == "fsize":
                     rc, err = run_child(binary, job["casefile"], d, limit=job["n"], ignore_xfsz=(job["variant"] == "error"), transient=(job["variant"] == "transient"))
+                elif job["mode"] == "wcall":
+                    what = {"eio-once": f"error=EIO:when={job['n']}", "eio-from": f"error=EIO:when={job['n']}+", "kill": f"signal=SIGKILL:when={job['n']}"}[job["variant"]]
+                    rc, err = run_child(binary, job["casefile"], d, wrapper=["strace", "-f", "-o", "/dev/null", "-e", "trace=" + WSET, "-e", f"inject={WSET}:{what}"])
                 elif job["mode"] == "rename":
                     rc, err = run_child(binary, job["casefile"], d, wrapper=["strace", "-f", "-o", "/dev/null", "-e", "trace=rename,renameat,renameat2",
                                                                              "-e", f"inject=rename,renameat,renameat2:signal=SIGKILL:when={job['n']}"])
@@ -194,7 +216,7 @@ def run(tier, seed):
                 if state == "absent" and job["olddir"]:
                     # all-or-nothing: a creation that did not go through leaves the previous complete container where it was
                     ok = False
-                if completed and job["variant"] in ("error", "transient") and state != "new-complete":
+                if completed and job["variant"] in ("error", "transient", "eio-once", "eio-from") and state != "new-complete":
                     ok = False
                 if not ok:
                     why = ins.get("why", "")
